@@ -275,7 +275,9 @@ func constTerm(c *ssa.Const) *Term {
 	return &Term{Op: "const", Sym: s, Typ: c.Type()}
 }
 
-func intConst(n int64) *Term { return &Term{Op: "const", Sym: fmt.Sprint(n), Typ: types.Typ[types.Int]} }
+func intConst(n int64) *Term {
+	return &Term{Op: "const", Sym: fmt.Sprint(n), Typ: types.Typ[types.Int]}
+}
 
 func isNillable(t types.Type) bool {
 	switch u := t.Underlying().(type) {
@@ -676,4 +678,16 @@ var _ = token.ADD
 
 func isConstLike(t *Term) bool {
 	return t != nil && (t.Op == "const" || t.Op == "zero")
+}
+
+// subtermsWhere: the sub-terms of t (t included) that satisfy pred, outermost first.
+func subtermsWhere(t *Term, pred func(*Term) bool) []*Term {
+	var out []*Term
+	t.Walk(func(x *Term) bool {
+		if pred(x) {
+			out = append(out, x)
+		}
+		return true
+	})
+	return out
 }
